@@ -33,6 +33,9 @@ use crate::types::Segment;
 
 pub(crate) mod wal_record;
 
+#[cfg(feature = "verif-hooks")]
+mod verif_hooks;
+
 /// Write-ahead log implementation for the Raft log.
 ///
 /// This WAL implementation manages both open and closed chunks of data.
